@@ -439,6 +439,11 @@ impl GenCfg {
                 attr_names.push(n);
             }
         }
+        if rng.pct(12) {
+            // attribute names that are concatenations of each other: (a, bc) and (ab, c) spell the same string
+            let groups: &[&[&str]] = &[&["a", "b", "c", "ab", "bc", "abc"], &["id", "x", "i", "dx", "idx", "d"], &["item", "s", "items", "id", "sid"]];
+            attr_names = rng.pick(groups).iter().map(|s| s.to_string()).collect();
+        }
         if rng.pct(30) {
             // attribute names that clash with element names in the identifier map
             for n in elem_names.clone() {
